@@ -16,6 +16,7 @@ func Typecheck(processes []*Process, assumedFreeNames []Name, globalEnv *GlobalE
 	// Running in a separate process allows us to break the typechecking part as soon as the first
 	// error is found
 	go typecheckFunctionsAndProcesses(processes, assumedFreeNames, globalEnv, errorChan, doneChan)
+	verifPoint(11)
 
 	select {
 	case err := <-errorChan:
